@@ -71,6 +71,12 @@ func main() {
 	res.Hit(fmt.Sprintf("variant:histOrderFix=%v", ho))
 	res.Hit(fmt.Sprintf("variant:leafFix=%v", lf))
 	res.Hit(fmt.Sprintf("variant:sysProbeFix=%v", sp))
+	if os.Getenv("C03_CHILD") == "concurrent" {
+		// the race-detector build (see racechild.go): the concurrent stage only, memory and pebble
+		concurrentStage(res, 6*time.Second, true, scratch)
+		os.RemoveAll(scratch)
+		lib.Finish(f, res)
+	}
 	if f.Replay != "" {
 		replay(f, res, scratch)
 		os.RemoveAll(scratch)
@@ -83,6 +89,14 @@ func main() {
 	raceProbe(res, true)
 	readErrorProbe(res, false)
 	readErrorProbe(res, true)
+	// real goroutines: quick = a short run on memory stores; thorough = longer, pebble too, and once
+	// more under the race detector
+	if f.Thorough() {
+		concurrentStage(res, 4*time.Second, true, scratch)
+		runRaceChild(f, res)
+	} else {
+		concurrentStage(res, 1200*time.Millisecond, false, scratch)
+	}
 	var scs []scenario
 	for _, c := range corpus() {
 		scs = append(scs, c)
